@@ -160,6 +160,12 @@ def all_cases(tier="quick"):
             cases.append({"dialect": dialect, "fields": [{"name": "v", "type": "Integer", "empty": False, "rule": rule, "range": [lo, hi]}]})
         for length, upper in (("0, 5...10", 10), ("1...2, 8", 8), ("8, 1...2", 8), ("0...3", 3)):
             cases.append({"dialect": dialect, "fields": [text_field("t", length, upper, True)]})
+        # upper length limits around the sizes at which database products cap or switch their character types
+        for upper in (1, 254, 255, 256, 2000, 3999, 4000, 4001, 8000, 8001, 32672, 32673, 32767, 65535, 65536, 10**6, 2**31):
+            for field_type, rule in (("Text", ""), ("Pattern", "a*"), ("RegEx", "a+")):
+                if field_type == "Text" or upper in (255, 4001, 32673):
+                    cases.append({"dialect": dialect, "fields": [text_field("t", "...%d" % upper, upper, upper % 2 == 0, field_type, rule)]})
+                    cases.append({"dialect": dialect, "fields": [text_field("t", "%d...%d" % (upper // 2 + 1, upper), upper, upper % 2 == 1, field_type, rule)]})
         # integer ranges derived from a length
         for length, lo, hi in (("1", 0, 9), ("2", -9, 99), ("1...3", -99, 999), ("...5", -9999, 99999), ("2...4", -999, 9999)):
             cases.append({"dialect": dialect, "fields": [{"name": "v", "type": "Integer", "empty": True, "length": length, "range": [lo, hi]}]})
